@@ -2,19 +2,38 @@
 C09 — formatting is idempotent and preserves the program.
 PROPERTY THEOREMS ONLY (lemmas: Proofs/Format.lean; model: Martian/Format.lean).
 
-Proved for all inputs: the call reordering (`topoSort`) is a permutation; under
-the (decidable) hypotheses "closed relation is acyclic and transitive on the
-calls" its result is in dependency order and a fixed point of the loop; the
-loop is the identity on any dependency order; and the string printer/lexer
-round trip `unquoteBytes (quoteString s) = some s` for every valid UTF-8 `s`.
-Not proved: that `closedTable` always yields a transitive relation (evaluated per
-generated graph by the driver, monitored on the real map), and the
-value-expression printer/parser round trip.
+Proved for all inputs: the call reordering (`topoSort`) is a permutation; the
+until-nothing-changes loop of `addNextDeps` (`closedTable`) ends in a fixed
+point of its round within its fuel, and the closed relation is therefore
+transitive on the calls, for every graph (`closedDeps_transitive`); under the
+single (decidable) hypothesis "closed relation is acyclic" (otherwise the Go
+code returns an error) the result of `topoSort` is in dependency order and a
+fixed point of the loop; the loop is the identity on any dependency order; and
+the string printer/lexer round trip `unquoteBytes (quoteString s) = some s`
+for every valid UTF-8 `s`.
+Value expressions (section ValueExpressions, model Martian/FormatExp.lean): for
+every well-formed expression the reader accepts the printed text and returns
+the expression up to `norm` (`parse_format_exp`), printing the result gives
+the same text (`format_exp_idem`), and the normal form is stable
+(`norm_stable`).  The keyword table and the `id` production the tokenizer
+model uses are re-read from the source (`keyword_table_current`,
+`id_tokens_current`).  Call statements without modifiers (section CallStatements,
+model Martian/FormatCall.lean): `parse_format_call`, `format_call_idem`.
+(That the model's closed table is the map the Go loop builds, that `fmt` is
+`FormatExp` and `parseValExp` is `ParseValExp` is tied by correspondence on
+generated inputs, every run.)  Not proved: comments, declaration layout beyond
+call statements, include expansion (monitors only); strconv's float printing/parsing (trusted).
 -/
 import Martian.Format
 import Proofs.Format
 import Proofs.FormatTopo
+import Proofs.FormatClosure
 import Proofs.FormatQuote
+import Proofs.FormatExpRound
+import Proofs.FormatExpLex
+import Martian.FormatExp
+import Gen.Facts
+import Proofs.FormatCallLex
 
 namespace Props.C09
 open Martian.Format
@@ -36,39 +55,71 @@ theorem topoSort_stable (d : Dep) (f : Nat) (l : List Nat) (h : sortedFrom d l =
 dependencies. -/
 theorem closedDeps_contains_edges (n : Nat) (edges : List (Nat × Nat)) (a b : Nat)
     (ha : a < n) (hb : b < n) (h : (a, b) ∈ edges) : closedDeps n edges a b = true :=
-  closeTab_mono n n _ a b ha hb (by rw [ofTable_tabulate n _ a b ha hb]; simp [depOfEdges, h])
+  closedDeps_contains_edges' n edges a b ha hb h
+
+/-- **The closure loop terminates in a fixed point.**  `closedTable` runs rounds
+of `addNextDeps` until a round adds nothing, with fuel `n² + 1`; for every
+number of calls and every edge list that fuel is never exhausted: one more
+round leaves the result unchanged. -/
+theorem closedTable_is_fixpoint (n : Nat) (edges : List (Nat × Nat)) :
+    tabulate n (closeOnce n (ofTable (closedTable n edges))) = closedTable n edges :=
+  closedTable_fix n edges
+
+/-- non-vacuity: on a chain of 5 calls the loop really iterates: the first and
+the second round both change the table (paths of length ≤ 2, then ≤ 4), the
+third is the round that adds nothing and ends the loop -/
+example :
+    let e := [(0, 1), (1, 2), (2, 3), (3, 4)]
+    let t0 := tabulate 5 (depOfEdges e)
+    t0 ≠ closeTab 5 1 t0 ∧ closeTab 5 1 t0 ≠ closeTab 5 2 t0 ∧
+    closeTab 5 2 t0 = closeTab 5 3 t0 ∧ closeTab 5 2 t0 = closedTable 5 e := by decide
+
+/-- **The closed relation is transitive** on the calls, for every number of
+calls and every set of direct dependencies (cyclic ones included): what
+`addNextDeps` is there to establish, and what the shift loop needs. -/
+theorem closedDeps_transitive (n : Nat) (edges : List (Nat × Nat)) :
+    transOn (List.range n) (closedDeps n edges) = true :=
+  closedDeps_trans n edges
+
+/-- non-vacuity: on the chain of 5 calls the direct dependencies, and the
+relation after one round, are not transitive; the closed relation holds
+exactly the 10 pairs `a < b` of the chain -/
+example :
+    let e := [(0, 1), (1, 2), (2, 3), (3, 4)]
+    let t0 := tabulate 5 (depOfEdges e)
+    transOn (List.range 5) (ofTable t0) = false ∧
+    transOn (List.range 5) (ofTable (closeTab 5 1 t0)) = false ∧
+    closedDeps 5 e 0 4 = true ∧ closedDeps 5 e 4 0 = false ∧
+    tabulate 5 (closedDeps 5 e) = tabulate 5 (fun a b => decide (a < b)) := by decide
 
 /-- **Respects dependencies.**  When the closed dependency relation has no
-cycle (otherwise the Go code returns an error and leaves the order alone) and
-is transitive on the calls (what `addNextDeps` is there to establish; a
-decidable hypothesis, evaluated by the driver for every generated graph and
-monitored on the real map), no call in the result is followed by a call it
-depends on — with `topoSort_perm`: every call comes after all its
+cycle (otherwise the Go code returns an error and leaves the order alone), no
+call in the result is followed by a call it depends on (transitivity of the
+closed relation, formerly a hypothesis, is proved for every graph:
+`closedDeps_transitive`) — with `topoSort_perm`: every call comes after all its
 dependencies.  The fuel `n² + n + 1` of the model is never exhausted (the loop
 needs at most `2n` iterations). -/
 theorem topoSort_respects_deps (n : Nat) (edges : List (Nat × Nat))
     (hcyc : hasCycle n (closedDeps n edges) = false)
-    (htr : transOn (List.range n) (closedDeps n edges) = true)
     (a b : Nat) (ha : a < n) (hb : b < n) (hab : (a, b) ∈ edges)
     (A B : List Nat) (hl : topoSort n edges = A ++ a :: B) : b ∉ B :=
-  sorted_no_later_dep _ _ A B a b (topoSort_sorted n edges hcyc htr) hl
+  sorted_no_later_dep _ _ A B a b (topoSort_sorted' n edges hcyc) hl
     (closedDeps_contains_edges n edges a b ha hb hab)
 
 /-- the same for transitive dependencies: the result is in dependency order
-for the whole closed relation -/
+for the whole closed relation (no transitivity hypothesis: `closedDeps_transitive`) -/
 theorem topoSort_sorted_closed (n : Nat) (edges : List (Nat × Nat))
-    (hcyc : hasCycle n (closedDeps n edges) = false)
-    (htr : transOn (List.range n) (closedDeps n edges) = true) :
+    (hcyc : hasCycle n (closedDeps n edges) = false) :
     sortedFrom (closedDeps n edges) (topoSort n edges) = true :=
-  topoSort_sorted n edges hcyc htr
+  topoSort_sorted' n edges hcyc
 
 /-- **Idempotent.**  Running the shift loop again on the result, with any
-fuel, returns it unchanged. -/
+fuel, returns it unchanged (for every acyclic graph; transitivity is proved,
+`closedDeps_transitive`). -/
 theorem topoSort_idem (n : Nat) (edges : List (Nat × Nat)) (f : Nat)
-    (hcyc : hasCycle n (closedDeps n edges) = false)
-    (htr : transOn (List.range n) (closedDeps n edges) = true) :
+    (hcyc : hasCycle n (closedDeps n edges) = false) :
     loop (closedDeps n edges) f (topoSort n edges) 0 = topoSort n edges :=
-  topoSort_stable _ f _ (topoSort_sorted n edges hcyc htr)
+  topoSort_stable _ f _ (topoSort_sorted' n edges hcyc)
 
 /-- the general loop statement: any call list, any relation that is transitive
 and irreflexive on it, fuel above twice the length -/
@@ -112,5 +163,199 @@ theorem raw_emission_breaks :
     Martian.Lexer.matchString (emitRaw [0x61, 0x22, 0x62] ++ [0x2C]) = some [0x22, 0x61, 0x22] ∧
     Martian.Lexer.matchString (quoteString [0x61, 0x22, 0x62] ++ [0x2C]) = some (quoteString [0x61, 0x22, 0x62]) := by
   decide
+
+/-- the keyword table the tokenizer model uses is the one in tokenizer.go now:
+`Gen.tokKeywords` is re-read on every run from the `bytesPrefixString(b, X)` calls
+of `keywordToken` (text, token constant; source order; without `@include`) -/
+theorem keyword_table_current : Gen.tokKeywords = Martian.FormatExp.keywordTable := by decide
+
+/-- … and the tokens the grammar's `id` production accepts besides `ID` are the
+alternatives of that production in grammar.y now (`Gen.idTokens`, source order) -/
+theorem id_tokens_current : Gen.idTokens = Martian.FormatExp.idTokens := by decide
+
+
+/-! ## value expressions: printer / reader round trip
+
+Model: `Martian.FormatExp` (`fmt` = `Exp.format` as run by `FormatExp`;
+`parseValExp` = tokenizer + `val_exp` grammar as run by `Parser.ParseValExp`;
+`wf` = the expressions the claim is made for; `norm` = the documented
+normalisations).  Tied on every run: `fmt` vs `syntax.FormatExp` byte for byte,
+`parseValExp` vs `Parser.ParseValExp` (AST dump) on printed and near-miss
+texts, and the three statements below monitored on the real code
+(harness/c09exp.go). -/
+section ValueExpressions
+open Martian.FormatExp
+
+/-- **Round trip.**  For EVERY well-formed value expression (any nesting of
+arrays, maps, struct literals, references inside collections, strings with any
+valid UTF-8 content, any `int64`, floats given by their 'g' text), the reader
+accepts the printed text and returns the expression up to the normalisations
+`norm` (a nil array prints as `null`; an integral float prints without `.`/`e`
+and reads back as an int; an empty struct literal reads back as an empty map). -/
+theorem parse_format_exp (e : Exp) (hw : wf e = true) (hv : isVal e = true) :
+    parseValExp (fmt [] e) = some (norm e) := by
+  simp only [parseValExp, lexAll_fmt_top e hw, Option.bind_some]
+  exact parseToks_toks e hw hv
+
+/-- the same for any indentation prefix made of white space (`FormatExp(e, prefix)`) -/
+theorem parse_format_exp_prefix (e : Exp) (p : List UInt8) (hw : wf e = true) (hv : isVal e = true)
+    (hp : p.all isSp = true) : parseValExp (fmt p e) = some (norm e) := by
+  have h := lexAll_fmt e p [] hw hp (Or.inl rfl)
+  rw [List.append_nil] at h
+  have h0 : lexAll [] = some [] := lexAll_nil
+  rw [h0] at h
+  simp only [Option.map_some, List.append_nil] at h
+  simp only [parseValExp, h, Option.bind_some]
+  exact parseToks_toks e hw hv
+
+/-- references are covered wherever the grammar allows them (inside a
+collection): `[e]` for any well-formed `e`, a reference included -/
+theorem parse_format_exp_nested (e : Exp) (hw : wf e = true) :
+    parseValExp (fmt [] (.arr [e])) = some (.arr [norm e]) := by
+  have := parse_format_exp (.arr [e]) (by simp [wf, wfL, hw]) rfl
+  simpa [norm, normL] using this
+
+/-- **Idempotent.**  Printing what was read back gives the same text: the
+printed form of a well-formed expression is a fixed point of read-then-print. -/
+theorem format_exp_idem (e : Exp) (p : List UInt8) (hw : wf e = true) : fmt p (norm e) = fmt p e :=
+  fmt_norm e p hw
+
+/-- read-then-print, in one statement -/
+theorem format_parse_format_exp (e e' : Exp) (hw : wf e = true) (hv : isVal e = true)
+    (h : parseValExp (fmt [] e) = some e') : fmt [] e' = fmt [] e ∧ wf e' = true ∧ parseValExp (fmt [] e') = some e' := by
+  rw [parse_format_exp e hw hv] at h
+  injection h with h
+  subst h
+  refine ⟨fmt_norm e [] hw, wf_norm e hw, ?_⟩
+  rw [parse_format_exp (norm e) (wf_norm e hw) (by rw [isVal_norm]; exact hv), norm_norm]
+
+/-- the normal form is well-formed and normal: after one round trip nothing changes any more -/
+theorem norm_stable (e : Exp) (hw : wf e = true) : wf (norm e) = true ∧ norm (norm e) = norm e :=
+  ⟨wf_norm e hw, norm_norm e⟩
+
+/-- the lexer sees exactly the intended tokens, also in nested position (any
+white-space prefix; followed by `,` `]` `}` newline, space or the end) -/
+theorem lex_format_exp (e : Exp) (p rest : List UInt8) (hw : wf e = true) (hp : p.all isSp = true)
+    (hr : TermStart rest) : lexAll (fmt p e ++ rest) = (lexAll rest).map (toks e ++ ·) :=
+  lexAll_fmt e p rest hw hp hr
+
+/-- non-vacuity: a well-formed expression with every construct — negative and
+extreme ints, a float with exponent and an integral float, strings needing
+every escape class, nested and empty collections, a one-element array (single
+line) and one of a multi-line element, map keys needing escapes, struct keys of
+different lengths incl. an id-like keyword, call and self references with
+paths, `X.default`, a nil array -/
+example : wf (.arr [
+    .int (-9223372036854775808), .int 9223372036854775807, .null, .nilArr, .bool true,
+    .float [0x31, 0x65, 0x2B, 0x30, 0x36], .float [0x2D, 0x32, 0x2E, 0x35], .float [0x31, 0x30, 0x30],
+    .str [0x61, 0x22, 0x5C, 0x0A, 0x01, 0x7F, 0xE2, 0x80, 0xA8, 0xC3, 0xA9, 0xF0, 0x9F, 0x98, 0x80],
+    .arr [], .map [], .struct [], .arr [.arr [.int 1]], .arr [.map [([0x6B], .null)]],
+    .map [([0x22], .int 1), ([0x61, 0x0A], .arr [.int 1, .int 2])],
+    .struct [([0x61], .int 1), ([0x73, 0x70, 0x6C, 0x69, 0x74], .arr [.int 1, .int 2]), ([0x7A, 0x7A, 0x7A], .str [])],
+    .ref false [0x58] [], .ref false [0x58] [[0x61], [0x62]], .ref false [0x58] [sDefault],
+    .ref true [0x78] [], .ref true [0x78] [[0x79]]]) = true := by decide +kernel
+
+/-- Negative witness (F26): the float `-0.0` prints as `-0`, which is not the
+canonical text of an integer, so it is outside `wf`; the text lexes as the
+integer token `-0`, whose value prints as `0`. -/
+theorem negative_zero_not_wf :
+    wf (.float [0x2D, 0x30]) = false ∧
+    Martian.Lexer.numTok false [0x2D, 0x30] = .int [0x2D, 0x30] ∧
+    Martian.Lexer.parseInt [0x2D, 0x30] = some 0 ∧ fmt [] (.int 0) = [0x30] := by decide
+
+/-- Negative witness: outside `wf` the round trip can fail — a struct field or
+reference named like a reserved word (`in`) is printed bare and is then a
+keyword token, not an `id` -/
+theorem reserved_word_not_ident :
+    isIdent [0x69, 0x6E] = false ∧ wordLexeme [0x69, 0x6E] = .tok (.reserved [0x69, 0x6E]) ∧
+    parseToks [.punct 0x7B, .reserved [0x69, 0x6E], .punct 0x3A, .kNull, .punct 0x2C, .punct 0x7D] = none := by
+  decide
+
+end ValueExpressions
+
+/-! ## call statements: printer / reader round trip
+
+Model: `Martian.FormatCall` (`fmtCall` = `CallStm.format(printer, "")` for a
+call without modifiers, wildcard binding and comments: with nothing else in the
+file, the whole output of `FormatSrcBytes`; `parseCall` = tokenizer + the
+first two alternatives of `call_stm`; `wfCall` = the calls the claim is made
+for; `normCall` = `norm` on every binding expression).  Tied on every run:
+`fmtCall` vs the real formatter byte for byte, `parseCall` vs
+`Parser.UncheckedParse` (dump of `Ast.Call`) on printed, respelled and
+near-miss texts (harness/c09call.go). -/
+section CallStatements
+open Martian.FormatExp Martian.FormatCall
+
+/-- **Round trip.**  For EVERY well-formed call statement (`call` / `map call`,
+with or without `as`, any number of bindings, split bindings of non-empty
+arrays, non-empty maps and references, plain bindings of any well-formed
+expression, ids of any length incl. the 30-byte alignment cut-off), the reader
+accepts the printed text and returns the call up to `norm` of the values. -/
+theorem parse_format_call (c : Call) (hw : wfCall c = true) :
+    parseCall (fmtCall c) = some (normCall c) :=
+  parseCall_fmtCall c hw
+
+/-- **Idempotent.**  Printing what was read back gives the same text. -/
+theorem format_call_idem (c : Call) (hw : wfCall c = true) : fmtCall (normCall c) = fmtCall c :=
+  fmtCall_norm c hw
+
+/-- read-then-print, in one statement: the result is well-formed, prints the same and reads back
+as itself -/
+theorem format_parse_format_call (c c' : Call) (hw : wfCall c = true)
+    (h : parseCall (fmtCall c) = some c') :
+    fmtCall c' = fmtCall c ∧ wfCall c' = true ∧ parseCall (fmtCall c') = some c' := by
+  rw [parse_format_call c hw] at h
+  injection h with h
+  subst h
+  refine ⟨fmtCall_norm c hw, wfCall_norm c hw, ?_⟩
+  rw [parse_format_call _ (wfCall_norm c hw)]
+  congr 1
+  simp only [normCall, List.map_map]
+  congr 1
+  apply List.map_congr_left
+  intro b _
+  simp [normBind, norm_norm]
+
+/-- the lexer sees exactly the intended tokens -/
+theorem lex_format_call (c : Call) (hw : wfCall c = true) : lexAll (fmtCall c) = some (toksCall c) :=
+  lexAll_fmtCall c hw
+
+/-- non-vacuity: a well-formed map call with an `as`, a split array, a split
+reference, a plain struct value (with an integral float, which `norm`
+changes), a plain reference to a call named `split`, and ids of different
+lengths (one of 31 bytes, beyond the alignment cut-off) -/
+example :
+    let c : Call := ⟨[0x53, 0x54], [0x61, 0x6C, 0x69, 0x61, 0x73],
+      [⟨[0x61], true, .arr [.int 1, .str [0x78]]⟩,
+       ⟨[0x62, 0x62, 0x62], true, .ref false [0x58] [[0x6F, 0x78]]⟩,
+       ⟨[0x73, 0x70, 0x6C, 0x69, 0x74], false,
+         .struct [([0x6B], .float [0x31, 0x30, 0x30]), ([0x6C, 0x6F, 0x6E, 0x67], .arr [.null, .bool true])]⟩,
+       ⟨List.replicate 31 0x71, false, .ref false sSplit []⟩,
+       ⟨[0x64, 0x64], true, .map [([0x6B], .ref true [0x70] [])]⟩]⟩
+    wfCall c = true ∧ isMap c = true ∧ idWidth c.binds = 5 ∧ c.id ≠ c.decId ∧
+      (parseCallToks (toksCall c)).map toksCall = some (toksCall (normCall c)) := by decide +kernel
+
+/-- Negative witnesses: the split forms the grammar does not have are outside
+`wfCall` (empty array, struct literal, a number), `split` before a comma or a
+dot is an identifier, and `map call` without a split binding / `call` with one
+are rejected -/
+theorem split_near_misses :
+    wfBind ⟨[0x61], true, .arr []⟩ = false ∧ wfBind ⟨[0x61], true, .struct [([0x6B], .int 1)]⟩ = false ∧
+    wfBind ⟨[0x61], true, .int 1⟩ = false ∧
+    -- call X(a = split,)
+    (parseCallToks [.reserved sCall, .id [0x58], .punct 0x28, .id [0x61], .punct 0x3D, .id sSplit,
+      .punct 0x2C, .punct 0x29]).map toksCall =
+      some (toksCall ⟨[0x58], [0x58], [⟨[0x61], false, .ref false sSplit []⟩]⟩) ∧
+    -- map call X(a = split,)
+    (parseCallToks [.reserved sMap, .reserved sCall, .id [0x58], .punct 0x28, .id [0x61], .punct 0x3D,
+      .id sSplit, .punct 0x2C, .punct 0x29]).isNone = true ∧
+    -- call X(a = split [1],)
+    (parseCallToks [.reserved sCall, .id [0x58], .punct 0x28, .id [0x61], .punct 0x3D, .id sSplit,
+      .punct 0x5B, .int [0x31], .punct 0x5D, .punct 0x2C, .punct 0x29]).isNone = true ∧
+    -- map call X(a = 1,)
+    (parseCallToks [.reserved sMap, .reserved sCall, .id [0x58], .punct 0x28, .id [0x61], .punct 0x3D,
+      .int [0x31], .punct 0x2C, .punct 0x29]).isNone = true := by decide +kernel
+
+end CallStatements
 
 end Props.C09
